@@ -59,28 +59,31 @@ def signedMagnitude (negative : Bool) (m : Nat) : Option Word :=
   else if 0 ≤ v ∧ v < (2 : Int) ^ 32 then some (BitVec.ofInt 32 v)
   else none
 
-def stripPrefix (p : List Char) (s : List Char) : Option (List Char) :=
-  if p.isPrefixOf s then some (s.drop p.length) else none
+/-- `s.to_lowercase().trim()` -/
+def normLit (s0 : List Char) : List Char := trimAscii (s0.map asciiLower)
 
-/-- `Imm::from_str`. -/
-def immFromChars (s0 : List Char) : Option Word :=
-  let s := trimAscii (s0.map asciiLower)
-  let (s, negative) := match s with
-    | '-' :: rest => (rest, true)
-    | _ => (s, false)
+/-- `Imm::from_str` after the sign has been stripped. -/
+def immBody (negative : Bool) (s : List Char) : Option Word :=
   if s == "zero".toList then some 0#32
-  else match stripPrefix ['0', 'x'] s with
-  | some rest =>
+  else match s with
+  | '0' :: 'x' :: rest =>            -- strip_prefix("0x")
     if rest.head? == some '-' then none
     else (parseU32 16 rest).bind (signedMagnitude negative)
-  | none =>
-    match stripPrefix ['0', 'b'] s with
-    | some rest =>
-      if rest.head? == some '-' then none
-      else (parseU32 2 rest).bind (signedMagnitude negative)
-    | none =>
-      if s.head? == some '-' then none
-      else (parseU32 10 s).bind (signedMagnitude negative)
+  | '0' :: 'b' :: rest =>            -- strip_prefix("0b")
+    if rest.head? == some '-' then none
+    else (parseU32 2 rest).bind (signedMagnitude negative)
+  | s =>
+    if s.head? == some '-' then none
+    else (parseU32 10 s).bind (signedMagnitude negative)
+
+/-- The body of `Imm::from_str` after lower-casing and trimming. -/
+def immCore (s : List Char) : Option Word :=
+  match s with
+  | '-' :: rest => immBody true rest      -- strip_prefix('-')
+  | _ => immBody false s
+
+/-- `Imm::from_str`. -/
+def immFromChars (s0 : List Char) : Option Word := immCore (normLit s0)
 
 def immFromStr (s : String) : Option Word := immFromChars s.toList
 
